@@ -9,7 +9,9 @@
 (*     formatting freedoms of Recon (separator , ; newline, padding,       *)
 (*     `@a` / `@a()`, `@a` / `@a{}`, implicit `@a(1,2)` / braced           *)
 (*     `@a({1,2})` attribute bodies, `@a{1}` / `@a 1`, bare / quoted       *)
-(*     text, decimal / hex / leading-zero numbers, float spellings).       *)
+(*     text, and five spellings of every number: decimal, hex, leading     *)
+(*     zeros, binary / upper case, signed (`-0`, `+1`), for integers at    *)
+(*     the limits of the tokenizer's kinds, signed zero and floats).       *)
 (*     NEAR MISSES are single abstract edits of a value (Edit), INVALID    *)
 (*     texts are corruptions of a rendering (Corrupt).  TLC enumerates     *)
 (*     the state space  value -> edited value -> rendering -> corruption   *)
@@ -64,7 +66,7 @@ Generic == {N1, TA}
 IntIds == {"n0", "n1", "nm1", "n2", "i32max", "i32min", "u32max", "p32", "i64max", "i64min", "mi64m1", "p63", "u64max", "nbig", "mbig"}
 FloatIds == {"f0", "fneg0", "f1", "fm1", "fh", "f1e19", "fp64"}
 NumIds == IntIds \cup FloatIds
-SpecialLeafIds == IF Wide THEN {"n0", "nm1", "n2", "nbig", "i64min", "u64max", "f0", "fneg0", "f1", "tb", "tcomma", "tcolon", "tclose", "topen", "tbrace", "blob"}
+SpecialLeafIds == IF Wide THEN {"n0", "nm1", "nbig", "i64min", "u64max", "f0", "fneg0", "tb", "tcomma", "tcolon", "tclose", "topen", "tbrace"}
                           ELSE {"n0", "f0", "fneg0", "tcomma", "tclose", "topen"}
 LeafIds == {"n1", "ta", "ext"} \cup SpecialLeafIds \cup NumIds
 
